@@ -83,3 +83,14 @@ Definition entry_of_lens (e : bytes * bytes * Z * Z * list Z) : entry :=
 Definition chk_trace (c : Z * list (bytes * bytes * Z * Z * list Z) * list tev) : bool :=
   let '(kind, plan0, tr) := c in
   tevs_match (kind =? 1) tr (flat_map erase (all_ops (map entry_of_lens plan0))).
+
+(* ---------------------------------------------------------------- the pre-pass: case = (prepipe given (1/0), encoding flag
+   (0 none, 1 --bz2in, 2 --gzin, 3 --zin, 4 --zstdin), the names of the command line, observed: 1 = mlr refused with
+   one of its two "not updatable in place" messages, 0 = it did not).  The model must predict exactly that. *)
+Definition enc_of (n : Z) : encoding :=
+  if n =? 1 then EncBzip2 else if n =? 2 then EncGzip else if n =? 3 then EncZlib else if n =? 4 then EncZstd else EncDefault.
+
+Definition chk_pre (c : Z * Z * list bytes * Z) : bool :=
+  let '(pp, fl, names, refused) := c in
+  let plan := map (fun f => (f, B "t", 0%N, Missing)) names in
+  Bool.eqb (match inplace_ops (pp =? 1) (enc_of fl) plan with [] => true | _ => false end) (refused =? 1).
